@@ -305,6 +305,12 @@ func (fc *fileController) acquireReader(ctx context.Context, key uint16) (*contr
 func (fc *fileController) newReader(ctx context.Context, key uint16) (*controlledReader, error) {
 	_, span := fc.T.Bench(ctx, "new_reader")
 	defer span.End()
+	// The handle is opened and registered under one hold of the reader pool lock.
+	// Garbage collection swaps a file while it holds that lock and skips files with
+	// registered handles: a handle opened before the lock is taken could otherwise
+	// outlive a swap unnoticed and later serve the old file's bytes at new offsets.
+	fc.readers.Lock()
+	defer fc.readers.Unlock()
 	file, err := fc.FS.Open(
 		fileKeyToName(key),
 		os.O_RDONLY,
@@ -317,7 +323,6 @@ func (fc *fileController) newReader(ctx context.Context, key uint16) (*controlle
 		ReaderAtCloser:  file,
 		controllerEntry: newPoolEntry(key, fc.release, fc.Instrumentation),
 	}
-	fc.readers.Lock()
 	f, ok := fc.readers.files[key]
 	if !ok {
 		fc.readers.files[key] = &fileReaders{open: []controlledReader{r}}
@@ -326,7 +331,6 @@ func (fc *fileController) newReader(ctx context.Context, key uint16) (*controlle
 		fc.readers.files[key].open = append(fc.readers.files[key].open, r)
 		f.Unlock()
 	}
-	fc.readers.Unlock()
 	return &r, err
 }
 
